@@ -80,6 +80,9 @@ class Monitor:
         inj = None
         if self.hook is not None:
             inj = self.hook(ev)
+        if kind != "rename" and getattr(_tls, "in_move", 0) > 0:
+            # inside shutil.move's copy-and-unlink fall-back (the rename failed): part of the one Rename operation
+            ev = ("mv:" + kind,) + ev[1:]
         with self.lock:
             self.events.append(ev + (threading.get_ident(), inj))
         return inj
@@ -197,7 +200,8 @@ def _path_mkdir(self, *a, **k):
 
 
 def _listdir(path="."):
-    _emit("listdir", path)
+    if getattr(_tls, "in_gfp", 0) == 0:
+        _emit("listdir", path)
     with _Suppress():
         r = _real["os.listdir"](path)
     m = MON
@@ -320,12 +324,15 @@ def _flock(fd, op):
 
 
 def _get_file_paths(directory):
-    # the model lists the metadata directory whether or not it exists
-    with _Suppress():
-        ex = _real["path.exists"](directory)
-    if not ex:
-        _emit("listdir", directory)
-    return _real["_get_file_paths"](directory)
+    # the model lists the metadata directory whether or not it exists: exactly one 'listdir' event per call,
+    # emitted before the directory is looked at (so that under the controlled scheduler the existence test and the
+    # listing are one step, as os.listdir on a missing directory would be)
+    _emit("listdir", directory)
+    _tls.in_gfp = getattr(_tls, "in_gfp", 0) + 1
+    try:
+        return _real["_get_file_paths"](directory)
+    finally:
+        _tls.in_gfp -= 1
 
 
 class _TmpWrap:
